@@ -224,6 +224,11 @@ static void run_win(Json& js, vh::Rng& rng, int a, int b, long sampled) {
     for (long t = 0; t < sampled; ++t) {
         all_kinds((int)std::pow(10.0, 2.7 + 2.3 * rng.unif()));
     }
+    if (a <= 3) {   // the top of the sampled range (index products near 2^31, half lengths near 2^16): once per run
+        all_kinds(100000);
+        all_kinds((int)rng.range(92683, 99999));
+        all_kinds(65537);
+    }
     // parameter corners
     for (double r : {-0.5, 0.0, 1e-3, 0.5, 0.999, 1.0, 1.5}) {
         win_event(js, 6, (int)rng.range(3, 200), r, true);
